@@ -198,6 +198,9 @@ def run_check(prop, argv):
                 # the text changed under a model that still builds: look wider (two more generator seeds), with the model kept on so that a differing input is named too
                 for k in (1, 2):
                     extra = extra + prop.gen('quick', random.Random((SEED + 104729 * k) * 1000003 + 17))
+            if len(extra) > 400000:
+                # keep the widened search bounded in time and memory (C09 generates 1.2 million calls per seed)
+                extra = R2.sample(extra, 400000)
             searched = len(extra)
             recs2 = evaluate(prop, extra, info if (pins_changed and info['model_ok']) else dict(info, model_ok=False), binaries)
             dis2, of2, _ = judge(prop, recs2)
